@@ -1492,7 +1492,7 @@ class Stream(AbstractStream):
             if energy_balance:
                 self.copy_like(streams[0])
             else:
-                self.copy_flow(streams[0])
+                self._imol.mix_from([streams[0]._imol])
         else:
             self.P = P = min([i.P for i in streams])
             if conserve_phases:
